@@ -194,13 +194,8 @@ func (b *execReportBuilder) checkMessage(
 		"seqNum", msg.Header.SequenceNumber,
 		"data", messageTokenData.ToByteSlice())
 
-	// 3. Check if the message has a valid nonce.
-	status := b.checkMessageNonce(msg, execReport)
-	if status != "" {
-		return execReport, status, nil
-	}
-
-	// 4. Check if the message is too costly to execute.
+	// 3. Check if the message is too costly to execute. This comes before the nonce check because the nonce check
+	// advances the expected nonce: a message that is skipped must not do that.
 	if slices.Contains(execReport.CostlyMessages, msg.Header.MessageID) {
 		b.lggr.Infow(
 			"message too costly to execute",
@@ -209,6 +204,12 @@ func (b *execReportBuilder) checkMessage(
 			"seqNum", msg.Header.SequenceNumber,
 			"messageState", TooCostly)
 		return execReport, TooCostly, nil
+	}
+
+	// 4. Check if the message has a valid nonce.
+	status := b.checkMessageNonce(msg, execReport)
+	if status != "" {
+		return execReport, status, nil
 	}
 
 	return result, ReadyToExecute, nil
